@@ -1,9 +1,9 @@
 import Hls.Props.C03
-#print axioms Hls.C03.findReplaced_spec
-#print axioms Hls.C03.step_idem
-#print axioms Hls.C03.writer_refines
-#print axioms Hls.C03.key_lines_mirror
-#print axioms Hls.C03.media_text_reduction
+#print axioms Hls.C03.key_mirror
+#print axioms Hls.C03.media_write_parse
+#print axioms Hls.C03.media_write_parse_wf
+#print axioms Hls.C03.media_roundtrip
+#print axioms Hls.C03.media_fixed_point
 #print axioms Hls.C03.k3_counterexample
 #print axioms Hls.C03.k2_counterexample
 #print axioms Hls.C03.control_roundtrip
